@@ -386,6 +386,8 @@ class DeepDiff(ResultDict, SerializationMixin, DistanceMixin, DeepDiffProtocol, 
     def _get_deephash_params(self):
         result = {key: self._parameters[key] for key in DEEPHASH_PARAM_KEYS}
         result['ignore_repetition'] = not self.report_repetition
+        # datetimes must be truncated in the item hashes exactly as _diff_datetime truncates them
+        result['truncate_datetime'] = getattr(self, 'truncate_datetime', None)
         result['number_to_string_func'] = self.number_to_string
         return result
 
